@@ -47,6 +47,7 @@ type Tick struct {
 	Safe      uint64 `json:"safe"`   // ... for "safe"
 	Latest    uint64 `json:"latest"` // ... for "latest" / nil / "pending"
 	L1Err     bool   `json:"l1_err,omitempty"`
+	L1ErrOnce bool   `json:"l1_err_once,omitempty"` // only the FIRST request to the L1 client in this tick fails (a transient error)
 	Lpb       uint64 `json:"lpb"` // last block the info-tree syncer has processed when the tick runs (non-decreasing)
 	InfoErr   bool   `json:"info_err,omitempty"`
 	L2Add     []int  `json:"l2_add,omitempty"` // indices of leaves whose GER somebody else put on L2 before this tick
@@ -99,7 +100,7 @@ func (c *l1Client) HeaderByNumber(_ context.Context, number *big.Int) (*types.He
 		tag = number.Int64()
 	}
 	c.tags = append(c.tags, tag)
-	if c.cur.L1Err {
+	if c.cur.L1Err || (c.cur.L1ErrOnce && len(c.tags) == 1) {
 		return nil, errL1
 	}
 	var n uint64
@@ -392,6 +393,9 @@ func randomCase(rng *hlib.Rng, errs bool) In {
 		tk.Latest = tk.Safe + uint64(rng.Intn(4))
 		if errs {
 			tk.L1Err = rng.Intn(8) == 0
+			if tk.L1Err && t%2 == 1 { // every second failing tick: only the first request fails (no extra random draw)
+				tk.L1Err, tk.L1ErrOnce = false, true
+			}
 			tk.InfoErr = rng.Intn(8) == 0
 			tk.IsInjErr = rng.Intn(10) == 0
 			tk.InjectErr = rng.Intn(8) == 0
@@ -448,6 +452,13 @@ func boundary(rng *hlib.Rng) []In {
 	ins = append(ins, In{Kind: "boundary", Finality: "FinalizedBlock", Leaves: two,
 		Ticks: []Tick{{Fin: 3, Safe: 4, Latest: 9, Lpb: 20, L1Err: true}, {Fin: 3, Safe: 4, Latest: 9, Lpb: 20, InfoErr: true},
 			{Fin: 3, Safe: 4, Latest: 9, Lpb: 20, IsInjErr: true}, {Fin: 3, Safe: 4, Latest: 9, Lpb: 20, InjectErr: true}, {Fin: 3, Safe: 4, Latest: 9, Lpb: 20}}})
+	// a transient L1 error on the request by finality tag only, while unfinalized roots exist above the finalized block and the
+	// syncer is ahead: nothing may be injected in that tick
+	for _, f := range []string{"FinalizedBlock", "SafeBlock"} {
+		ins = append(ins, In{Kind: "boundary", Finality: f, Leaves: two,
+			Ticks: []Tick{{Fin: 3, Safe: 4, Latest: 9, Lpb: 20, L1ErrOnce: true}, {Fin: 3, Safe: 4, Latest: 9, Lpb: 20}, {Fin: 4, Safe: 4, Latest: 10, Lpb: 20, L1ErrOnce: true},
+				{Fin: 9, Safe: 9, Latest: 10, Lpb: 20}}})
+	}
 	// failures while the syncer lags
 	ins = append(ins, In{Kind: "boundary", Finality: "FinalizedBlock", Leaves: two,
 		Ticks: []Tick{{Fin: 4, Safe: 4, Latest: 9, Lpb: 2}, {Fin: 9, Safe: 9, Latest: 9, Lpb: 3, InfoErr: true}, {Fin: 9, Safe: 9, Latest: 9, Lpb: 3, L1Err: true},
